@@ -311,9 +311,25 @@ struct Case {
 fn mk_packet(c: &Case) -> Option<Box<ScionRawPacketView>> {
     let src = ScionAddr::V4(ScionAddrV4::new(c.src, Ipv4Addr::new(10, 0, 0, 1)));
     let dst = ScionAddr::V4(ScionAddrV4::new(c.dst, Ipv4Addr::new(10, 0, 0, 2)));
-    ScionRawPacket::new(src, dst, c.dp.clone().unwrap_or_else(|| DpPath::Standard(c.path.clone())), ProtocolNumber::Other(253), vec![1, 2, 3])
-        .try_encode_to_owned_view()
-        .ok()
+    let pkt = ScionRawPacket::new(src, dst, c.dp.clone().unwrap_or_else(|| DpPath::Standard(c.path.clone())), ProtocolNumber::Other(253), vec![1, 2, 3]);
+    match pkt.try_encode_to_owned_view() {
+        Ok(v) => Some(v),
+        // paths of 65..79 hop fields fit the header but are refused by the encoder (CurrHF has 6 bits): such wire
+        // packets can still arrive, so they are written without the validity check and parsed back
+        Err(_) if c.features.contains(&"longpath") => {
+            use sciparse::core::encode::WireEncode;
+            let n = pkt.required_size();
+            if n > 1020 + 3 {
+                return None;
+            }
+            let mut buf = vec![0u8; n];
+            let w = unsafe { pkt.encode_unchecked(&mut buf) };
+            buf.truncate(w);
+            use sciparse::core::view::View;
+            ScionRawPacketView::try_from_boxed(buf.into_boxed_slice()).ok()
+        }
+        Err(_) => None,
+    }
 }
 
 struct WalkObs {
@@ -525,7 +541,13 @@ fn main() {
                 }
                 let paths = match catch(|| registry.paths(a.ia, b.ia, ts, &topo)) {
                     Ok(Ok(p)) => p,
-                    Ok(Err(_)) => continue,
+                    Ok(Err(e)) => {
+                        rep.hit("path lookup returned an error");
+                        if joinable(spec, a.ia, b.ia) {
+                            rep.spec_fail("C01:joinable-not-offered", &format!("{} -> {} can be joined (valley-free search over the topology) but the lookup fails: {e}", a.ia, b.ia), json!({"topology": format!("{spec:?}")}));
+                        }
+                        continue;
+                    }
                     Err(m) => {
                         rep.spec_fail("C01:path-lookup-panic", &format!("paths({},{}) panicked: {m}", a.ia, b.ia), json!({"topo": format!("{spec:?}")}));
                         continue;
@@ -549,6 +571,31 @@ fn main() {
                     }
                     feats.push(match m.segments.len() { 1 => "1seg", 2 => "2seg", _ => "3seg" });
                     honest.push(Case { kind: "honest".into(), start: a.ia, ingress_if: 0, src: a.ia, dst: b.ia, path: m, dp: None, now: now0 + 10, ignore_macs: false, honest: true, features: feats.clone() });
+                }
+                // the same lookup with every segment beaconed under its own timestamp, initial SegID and hop expiry
+                // (`paths` beacons all segments with SegID 0, one timestamp and expiry 255)
+                let mut prng = Rng::new(rng.next());
+                let rb = catch(|| registry.verif_paths_with(a.ia, b.ia, &topo, |_, _| {
+                    let t = now0 - prng.below(300) as u32;
+                    (chrono::DateTime::<chrono::Utc>::from_timestamp(t as i64, 0).unwrap(), prng.next() as u16, prng.below(256) as u8)
+                }));
+                if let Ok(Ok(paths)) = rb {
+                    let take = if ti == 0 { 2 } else { 3 };
+                    let n = paths.len();
+                    let first = if n > take { rng.below((n - take + 1) as u64) as usize } else { 0 };
+                    for p in paths.into_iter().skip(first).take(take) {
+                        let ScionDpPathView::Standard(v) = p.dp_path() else { continue };
+                        let m = v.to_model();
+                        let mut feats = vec!["random-beacon"];
+                        if m.segments.iter().any(|s| s.info_field.flags.contains(InfoFieldFlags::PEERING)) {
+                            feats.push("peering");
+                        }
+                        if has_noncore_crossover(spec, &p) {
+                            feats.push("noncore-crossover");
+                        }
+                        feats.push(match m.segments.len() { 1 => "1seg", 2 => "2seg", _ => "3seg" });
+                        honest.push(Case { kind: "honest".into(), start: a.ia, ingress_if: 0, src: a.ia, dst: b.ia, path: m, dp: None, now: now0 + 10, ignore_macs: false, honest: true, features: feats });
+                    }
                 }
             }
         }
@@ -595,7 +642,7 @@ fn main() {
                 }
                 5 => {
                     // clock at the boundaries
-                    let s = &path.segments[0];
+                    let s = &path.segments[rng.below(path.segments.len() as u64) as usize];
                     let ts = s.info_field.timestamp;
                     let exp = s.hop_fields.iter().map(|h| ts as u64 + (h.expiration_units as u64 + 1) * 675 / 2).min().unwrap_or(ts as u64) as u32;
                     now = *rng.pick(&[ts.wrapping_sub(1), ts, exp.wrapping_sub(1), exp, exp.wrapping_add(1)]);
@@ -632,6 +679,35 @@ fn main() {
             cases.push(Case { kind: "adversarial".into(), start, ingress_if, src: h.src, dst, path, dp: None, now, ignore_macs: ignore, honest: false, features: feats });
         }
         let mut all_extra: Vec<Case> = vec![];
+        // wire packets with 65..79 hop fields (the encoder refuses them, a sender need not): every hop field is a copy
+        // of the source AS's own first hop field, MAC checking off, pointer at / next to the last index the 6-bit
+        // CurrHF field can hold
+        if prop != "C01" {
+            for _ in 0..args.scale(4, 30) {
+                if honest.is_empty() {
+                    break;
+                }
+                let h = &honest[rng.below(honest.len() as u64) as usize];
+                if h.path.segments.is_empty() || h.path.segments[0].hop_fields.is_empty() {
+                    continue;
+                }
+                let seg0 = h.path.segments[0].clone();
+                let hop = seg0.hop_fields[0];
+                let lens: [usize; 3] = *rng.pick(&[[33, 33, 4], [32, 32, 10], [40, 30, 2], [63, 2, 2], [2, 62, 3], [30, 30, 4], [32, 31, 2]]);
+                let mut path = h.path.clone();
+                path.segments.clear();
+                for l in lens {
+                    let mut sg = seg0.clone();
+                    sg.hop_fields = std::iter::repeat(hop).take(l).collect();
+                    path.segments.push(sg);
+                }
+                let total: usize = lens.iter().sum();
+                let chf = *rng.pick(&[61usize, 62, 63, 63, 63]);
+                path.current_hop_field = chf.min(total - 1) as u8;
+                path.current_info_field = if chf < lens[0] { 0 } else if chf < lens[0] + lens[1] { 1 } else { 2 };
+                all_extra.push(Case { kind: "longpath".into(), start: h.src, ingress_if: 0, src: h.src, dst: h.dst, path, dp: None, now: h.now, ignore_macs: true, honest: false, features: vec!["longpath"] });
+            }
+        }
 
         // one-hop and empty paths (C13 only)
         if prop != "C01" {
@@ -686,11 +762,10 @@ fn main() {
         let mut queue: std::collections::VecDeque<(Case, Option<usize>)> = all.into_iter().collect();
         while let Some((c, down)) = queue.pop_front() {
             let (c, down) = (&c, &down);
-            let (topo_used, spec_used);
+            let topo_used;
+            let mut spec_used = spec.clone();
             let topo_ref: &ScionTopology = if let Some(li) = down {
-                let mut s2 = spec.clone();
-                s2.links[*li].up = false;
-                spec_used = s2;
+                spec_used.links[*li].up = false;
                 topo_used = match build_topo(&spec_used) { Ok(t) => t, Err(_) => continue };
                 send_topo(&mut lean, &spec_used);
                 &topo_used
@@ -730,6 +805,36 @@ fn main() {
             if obs.steps > hops + 1 {
                 rep.spec_fail("C13:too-many-steps", &format!("{} AS steps for {} hop fields", obs.steps, hops), json!({"case": toks}));
             }
+            // spec oracle 0 (C13), on the implementation's own trace, independent of the Lean driver: every forwarding
+            // step leaves over an existing link that is up and enters the neighbour that link leads to, over that
+            // neighbour's interface; delivery happens only in the destination AS
+            {
+                let link_of = |at: u64, ifid: u16| spec_used.links.iter().find_map(|l| {
+                    if l.a.to_u64() == at && l.a_if == ifid { Some((l.up, l.b.to_u64(), l.b_if)) }
+                    else if l.b.to_u64() == at && l.b_if == ifid { Some((l.up, l.a.to_u64(), l.a_if)) }
+                    else { None }
+                });
+                for (k, (at, _iif, _b, act, _a)) in obs.trace.iter().enumerate() {
+                    if let Some(eg) = act.strip_prefix("next ").and_then(|x| x.parse::<u16>().ok()) {
+                        match link_of(*at, eg) {
+                            None => rep.spec_fail("C13:forwarded-over-missing-link", &format!("AS {at} forwarded over interface {eg}, which has no link"), json!({"case": toks, "step": k})),
+                            Some((false, _, _)) => rep.spec_fail("C13:forwarded-over-down-link", &format!("AS {at} forwarded over interface {eg}, whose link is down"), json!({"case": toks, "step": k})),
+                            Some((true, pa, pi)) => {
+                                if let Some((nat, nif, ..)) = obs.trace.get(k + 1) {
+                                    if (*nat, *nif) != (pa, pi) {
+                                        rep.spec_fail("C13:forwarded-to-wrong-neighbour", &format!("link {at}#{eg} leads to {pa}#{pi} but the packet was processed next at {nat}#{nif}"), json!({"case": toks, "step": k}));
+                                    }
+                                }
+                            }
+                        }
+                    }
+                }
+                if let Some(x) = obs.verdict.strip_prefix("delivered ") {
+                    if x != c.dst.to_u64().to_string() {
+                        rep.spec_fail("C13:delivered-outside-destination", &format!("delivered in AS {x}, destination is {}", c.dst.to_u64()), json!({"case": toks}));
+                    }
+                }
+            }
             // per-step correspondence with the model of pocketscion
             let case_json = json!({"kind": c.kind, "topology": ti, "start": c.start.to_string(), "ingress_if": c.ingress_if, "src": c.src.to_string(), "dst": c.dst.to_string(), "now": c.now, "ignore_macs": c.ignore_macs, "features": c.features, "link_down": down, "path": toks});
             for (k, (at, iif, before, act, after)) in obs.trace.iter().enumerate() {
@@ -754,10 +859,30 @@ fn main() {
                 let mref = lean.ask(&format!("walkp ref {hdr} {toks}"));
                 let ref_verdict = mref.split(" steps ").next().unwrap_or("").to_string();
                 if ref_verdict != obs.verdict && prop != "C01" {
+                    let vk = |v: &str| v.split(' ').enumerate().filter(|(i, _)| *i != 1).map(|(_, s)| s).collect::<Vec<_>>().join(" ");
+                    // the open findings are specific: (a) one-hop packets are routed with checks missing, i.e. the
+                    // simulator lets a packet through that the reference refuses; (b) the P flag is ignored, i.e. the
+                    // simulator behaves exactly as the reference does on the same packet with the P flags cleared.
+                    // Every other divergence on such packets is reported under its own class.
+                    let sim_lets_through = obs.verdict.starts_with("delivered") || obs.verdict.starts_with("simerror");
+                    let ref_refuses = ref_verdict.starts_with("scmp") || ref_verdict.starts_with("dropped");
+                    let has_p = c.dp.is_none() && c.path.segments.iter().any(|s| s.info_field.flags.contains(InfoFieldFlags::PEERING));
+                    let explained_by_ignored_p = has_p && {
+                        let mut q = c.path.clone();
+                        for sg in q.segments.iter_mut() {
+                            sg.info_field.flags.remove(InfoFieldFlags::PEERING);
+                        }
+                        let r2 = lean.ask(&format!("walkp ref {hdr} std {}", path_tokens(&q)));
+                        r2.split(" steps ").next().unwrap_or("") == obs.verdict
+                    };
+                    rep.hit(&format!("ref-mismatch sim[{}] ref[{}]{}", vk(&obs.verdict), vk(&ref_verdict), if matches!(c.dp, Some(DpPath::OneHop(_))) { " onehop" } else if has_p { " pflag" } else { "" }));
                     let class = if matches!(c.dp, Some(DpPath::OneHop(_))) {
-                        "onehop-unchecked"
-                    } else if c.path.segments.iter().any(|s| s.info_field.flags.contains(InfoFieldFlags::PEERING)) {
-                        "peering"
+                        // "checks missing" = the simulator carries the packet further than the reference does (or
+                        // ends in an internal error where the reference answers with SCMP)
+                        let ref_steps: usize = mref.split(" steps ").nth(1).and_then(|x| x.trim().parse().ok()).unwrap_or(usize::MAX);
+                        if (sim_lets_through && ref_refuses) || obs.steps > ref_steps || obs.verdict.starts_with("simerror") { "onehop-unchecked" } else { "onehop-other" }
+                    } else if has_p {
+                        if explained_by_ignored_p { "peering" } else { "pflag-other" }
                     } else if ref_verdict.contains("pp_cons_") && !obs.verdict.contains("pp_cons_") {
                         "segment-origin-hop-accepted-from-link"
                     } else if obs.verdict.contains("pp_cons_") && !ref_verdict.contains("pp_cons_") {
@@ -783,8 +908,16 @@ fn main() {
                     // the reply: reverse the path as it arrived and send it back from the destination
                     if !c.features.contains(&"reversed") {
                         if let Some(mut fp) = obs.final_path.clone() {
+                            let delivered_toks = path_tokens(&fp);
                             match fp.try_reverse() {
                                 Ok(()) => {
+                                    // tie of the model's `reversePath` (used by the reply theorems) to `try_reverse`
+                                    let m = lean.ask(&format!("reverse {delivered_toks}"));
+                                    let i = path_tokens(&fp);
+                                    if lean.differs(&m, &i) {
+                                        rep.disagree("reverse", json!({"delivered": delivered_toks}), &i, &m);
+                                    }
+                                    rep.hit("reversal compared with the model");
                                     let mut f2 = c.features.clone();
                                     f2.push("reversed");
                                     queue.push_back((Case { kind: "honest-reverse".into(), start: c.dst, ingress_if: 0, src: c.dst, dst: c.src, path: fp, dp: None, now: c.now, ignore_macs: false, honest: true, features: f2 }, None));
